@@ -143,6 +143,7 @@ static inline bool fifo_del_all(fifo_cache o, const fifo_cache *n, uint64_t k, u
     return g == k || (fifo_vw_kept(og, ng) && ng.ord == (og.has ? og.ord - (og.ord > ok.ord ? 1 : 0) : SPEC_NONE));
 }
 static inline bool fifo_has_o(fifo_cache o, uint64_t k) { return fifo_has(&o, k); }
+static inline uint64_t fifo_cap_o(fifo_cache o) { return fifo_cap(&o); }
 static inline uint64_t fifo_val_o(fifo_cache o, uint64_t k) { return fifo_val(&o, k); }
 static inline uint64_t fifo_key_of_node_o(fifo_cache o, cstl_iter n) { return fifo_key_of_node(&o, n); }
 static inline uint64_t fifo_entry_key_o(fifo_cache o, cstl_iter kp) { return fifo_entry_key(&o, kp); }
